@@ -568,14 +568,16 @@ impl<'l, Data> EventLoop<'l, Data> {
                 #[cfg(calloop_verif)]
                 let _verif_scope = crate::verif::EventScope::new(event.token.verif_key());
                 trace!(source = reg_token.get_id(), "Dispatching events for source");
-                let mut ret = disp.process_events(event.readiness, event.token, data)?;
+                let ret = disp.process_events(event.readiness, event.token, data);
 
                 // if the returned PostAction is Continue, it may be overwritten by a user-specified pending action
+                // (it is taken even if the source failed, so that it cannot be applied to an other source later)
                 let pending_action = self
                     .handle
                     .inner
                     .pending_action
                     .replace(PostAction::Continue);
+                let mut ret = ret?;
                 if let PostAction::Continue = ret {
                     ret = pending_action;
                 }
